@@ -69,6 +69,7 @@ async fn scripted(ctx: &mut Ctx, nclients: usize, nworkers: usize, per: u32, cap
     let total = per * nclients as u32;
     let mut steps = 0u32;
     let mut both_ready = 0u64;
+    let mut worker_left: Option<usize> = None;
     loop {
         steps += 1;
         if steps > 60_000 {
@@ -98,6 +99,30 @@ async fn scripted(ctx: &mut Ctx, nclients: usize, nworkers: usize, per: u32, cap
             workers[j].conn.feed_held(&b);
         }
         let replies_done: u32 = clients.iter().map(|c| c.out_msgs().map(|m| m.len() as u32).unwrap_or(0)).sum();
+        // one worker leaves while it is idle (everything it was given is answered and
+        // delivered); the proxy gets to notice before anything else happens
+        if nworkers >= 2 && seed % 4 == 1 && worker_left.is_none() && replies_done >= total / 2 {
+            let issued: u32 = sent.iter().sum();
+            if replies_done == issued && workers.iter().all(|w| w.conn.held() == 0 && w.conn.unread() == 0) {
+                let j = r.below(nworkers);
+                workers[j].conn.end_inbound(crate::pipe::EndKind::Eof);
+                worker_left = Some(j);
+                ctx.count("idle_worker_left_mid_run");
+                for _ in 0..50 {
+                    if px.woken() {
+                        if let Poll::Ready(res) = px.poll_once() {
+                            ctx.violation_with("C15/proxy-returned", format!("proxy ended when an idle worker left: {res:?}"), case.clone());
+                            return;
+                        }
+                    } else {
+                        sim::settle().await;
+                        if !px.woken() {
+                            break;
+                        }
+                    }
+                }
+            }
+        }
         if replies_done >= total && workers.iter().all(|w| w.conn.held() == 0) {
             break;
         }
@@ -166,11 +191,13 @@ async fn scripted(ctx: &mut Ctx, nclients: usize, nworkers: usize, per: u32, cap
                 } else {
                     sim::settle().await;
                     if !px.woken()
-                        && clients.iter().all(|c| c.conn.held() == 0 && c.conn.unread() == 0)
-                        && workers.iter().all(|w| w.conn.held() == 0 && w.conn.unread() == 0)
+                        && clients.iter().all(|c| c.conn.held() == 0)
+                        && workers.iter().all(|w| w.conn.held() == 0)
                         && sent.iter().all(|s| *s == per)
                     {
-                        // nothing left to deliver, proxy parked: whatever is missing is lost
+                        // everything was made readable and the proxy is parked without a
+                        // pending wake-up: whatever is missing now is lost (bytes it left
+                        // unread included)
                         break;
                     }
                 }
@@ -567,6 +594,7 @@ impl Prop for C15 {
             ("capture_runs", 50),
             ("cooperative_yields_during_proxy_poll", 100),
             ("client_reconnects_under_its_identity", 20),
+            ("idle_worker_left_mid_run", 20),
             ("captured_copies", 1000),
         ]
     }
